@@ -1,3 +1,173 @@
-(** C06 theorems. *)
-From Verif Require Import Lib.Base C06.Spec C06.Model C06.Proofs.
+(** C06 — sdk/log BatchProcessor: every record once (or overwritten and counted),
+    per-goroutine order, bounded batches, one Export at a time, value copies,
+    nothing after Shutdown.  Every theorem quantifies over ALL configurations
+    (queue, batch and buffer sizes >= 1), ALL schedules (lists of model actions, any
+    length) and any number of goroutines (thread ids are arbitrary naturals); the
+    exporter's outcome, context expiry and the poll timer are actions of the schedule.
+
+    Guards in plain sight (each is forced: see the _refuted lemmas below):
+      - order: "no ForceFlush call overlaps a Shutdown call"   ([overlap h = false])
+      - quiet / visibility: the Shutdown that returned nil was the only Shutdown
+        call issued so far; no Shutdown call before a ForceFlush returned
+      - visibility: no Export call has failed so far. *)
+From Verif Require Import Lib.Base C06.Spec C06.Model C06.Inv C06.Proofs.
+From Coq Require Import Permutation.
 Local Open Scope nat_scope.
+
+(** conservation: the records accepted by OnEmit are exactly (as a multiset, nothing
+    twice) those handed to the exporter, overwritten as the oldest of a full ring,
+    lost to a failed export or a shutdown whose context expired, or still pending *)
+Theorem c06_exactly_once_or_overwritten c sch s :
+  valid c -> exec c sch = Some s ->
+  Permutation (enq s) (exported (hist s) ++ dropped s ++ lostE s ++ lostD s ++ pend s) /\
+  NoDup (enq s) /\ incl (enq s) (emitted (hist s)).
+Proof. exact (p_conservation c sch s). Qed.
+Print Assumptions c06_exactly_once_or_overwritten.
+
+Theorem c06_at_most_once c sch s :
+  valid c -> exec c sch = Some s -> NoDup (exported (hist s)).
+Proof. exact (p_at_most_once c sch s). Qed.
+Print Assumptions c06_at_most_once.
+
+Theorem c06_batch_bound c sch s :
+  valid c -> exec c sch = Some s ->
+  forall h1 b h2, hist s = h1 ++ EvBegin b :: h2 -> 1 <= length b /\ length b <= maxb c.
+Proof. exact (p_batch_bound c sch s). Qed.
+Print Assumptions c06_batch_bound.
+
+(** Export is entered only while no Export is in progress; it returns only while one is *)
+Theorem c06_exclusive_export c sch s :
+  valid c -> exec c sch = Some s ->
+  (forall h1 b h2, hist s = h1 ++ EvBegin b :: h2 -> open_export h1 = false) /\
+  (forall h1 ok h2, hist s = h1 ++ EvEnd ok :: h2 -> open_export h1 = true).
+Proof. intros Hv Hr. split; [exact (p_exclusive_begin c sch s Hv Hr) | exact (p_exclusive_end c sch s Hv Hr)]. Qed.
+Print Assumptions c06_exclusive_export.
+
+(** every exported record is, as a VALUE, a record passed to Emit: the [AMutate]
+    actions of the schedule (the caller editing its own copy) never show *)
+Theorem c06_clone_isolation c sch s :
+  valid c -> exec c sch = Some s ->
+  forall x, In x (exported (hist s)) -> In x (emitted (hist s)).
+Proof. exact (p_clone_isolation c sch s). Qed.
+Print Assumptions c06_clone_isolation.
+
+(** GUARD: no ForceFlush call overlaps a Shutdown call *)
+Theorem c06_per_goroutine_order c sch s :
+  valid c -> exec c sch = Some s ->
+  overlap (hist s) = false -> ordered (exported (hist s)) = true.
+Proof. exact (p_order c sch s). Qed.
+Print Assumptions c06_per_goroutine_order.
+
+(** GUARD (inside [shut_returned all_guards]): the Shutdown that returned nil was the
+    only Shutdown call issued so far *)
+Theorem c06_quiet_after_shutdown c sch s :
+  valid c -> exec c sch = Some s ->
+  forall h1 b h2, hist s = h1 ++ EvBegin b :: h2 -> shut_returned all_guards h1 = false.
+Proof. exact (p_quiet c sch s). Qed.
+Print Assumptions c06_quiet_after_shutdown.
+
+(** all exporter-side clauses of spec_ok at every position of every model history *)
+Theorem c06_exporter_clauses c sch s :
+  valid c -> exec c sch = Some s -> all_pos (safe_ev c) (hist s) = true.
+Proof. exact (safe_reach c sch s). Qed.
+Print Assumptions c06_exporter_clauses.
+
+(** GUARDS: no Shutdown call was issued before the ForceFlush returned (F-C06-1); no
+    Export call has failed so far (F-C06-3).  Every record whose Emit had returned before
+    the ForceFlush was called has been handed to the exporter when it returns nil, or is
+    excused as overwritten. *)
+Theorem c06_flush_visibility c sch s :
+  valid c -> exec c sch = Some s ->
+  forall h1 t h2, hist s = h1 ++ EvRet t OpFlush RNil :: h2 ->
+  shut_calls h1 = 0 -> has_fail h1 = false ->
+  forall r, In r (emit_rets (before_call t h1)) -> In r (exported h1) \/ excused c h1 r = true.
+Proof. exact (p_flush_visibility c sch s). Qed.
+Print Assumptions c06_flush_visibility.
+
+(** GUARDS: this Shutdown is the only Shutdown call issued so far (F-C06-1); no Export
+    call has failed so far (F-C06-3). *)
+Theorem c06_shutdown_drains c sch s :
+  valid c -> exec c sch = Some s ->
+  forall h1 t h2, hist s = h1 ++ EvRet t OpShutdown RNil :: h2 ->
+  shut_calls h1 <= 1 -> has_fail h1 = false ->
+  forall r, In r (emit_rets (before_call t h1)) -> In r (exported h1) \/ excused c h1 r = true.
+Proof. exact (p_shutdown_drains c sch s). Qed.
+Print Assumptions c06_shutdown_drains.
+
+(** every history the model can produce satisfies the (guarded) specification - the same
+    [spec_ok] that judges the histories recorded from the implementation *)
+Theorem c06_spec_ok c sch s :
+  valid c -> exec c sch = Some s -> spec_ok c (hist s) = true.
+Proof. exact (spec_reach c sch s). Qed.
+Print Assumptions c06_spec_ok.
+
+(** ** The literal statement is false of the code as it is: witnesses (known findings) *)
+Definition strict_fails (c : config) (sch : list action) : bool :=
+  match exec c sch with
+  | Some s => negb (spec_strict c (hist s)) && spec_ok c (hist s)
+  | None => false
+  end.
+
+(** F-C06-1: a second Shutdown after a first Shutdown whose context expired returns nil
+    at once although record (1,0) has not been handed to the exporter *)
+Definition w_second_shutdown : list action :=
+  [AEmit 1 0; AStep 1; AShutdown 2; APoll WKill true; AStep 2; AStep 2; AStep 2; AStep 2;
+   ACtx 2; AStep 2; AStep 2; ACtx 2; AStep 2; AShutdown 3].
+Theorem c06_second_shutdown_refuted :
+  exists c sch, valid c /\ strict_fails c sch = true.
+Proof. exists (mkcfg 4 2 2), w_second_shutdown. split; [cbv; lia | vm_compute; reflexivity]. Qed.
+Print Assumptions c06_second_shutdown_refuted.
+
+(** ... and so does a ForceFlush *)
+Definition w_flush_after_shutdown : list action :=
+  [AEmit 1 0; AStep 1; AShutdown 2; APoll WKill true; AStep 2; AStep 2; AStep 2; AStep 2;
+   ACtx 2; AStep 2; AStep 2; ACtx 2; AStep 2; AFlush 3].
+Theorem c06_flush_after_shutdown_refuted :
+  exists c sch, valid c /\ strict_fails c sch = true.
+Proof. exists (mkcfg 4 2 2), w_flush_after_shutdown. split; [cbv; lia | vm_compute; reflexivity]. Qed.
+Print Assumptions c06_flush_after_shutdown_refuted.
+
+(** F-C06-2: three parties.  Goroutine 1 has record 0 queued and is inside OnEmit with
+    record 1 (past the stopped check); goroutine 3 is inside ForceFlush (past the stopped
+    check); goroutine 2 calls Shutdown, which empties the ring (record 0) under the queue
+    lock; record 1 is enqueued and handed over by the ForceFlush; only then Shutdown pushes
+    its final batch: record 1 is exported before record 0. *)
+Definition w_order : list action :=
+  [AEmit 1 0; AStep 1; AEmit 1 0; AFlush 3; AShutdown 2; APoll WKill true; AStep 2; AStep 2;
+   AStep 1; AStep 3; AStep 2; AStep 2; AXTake; AXBegin; AXEnd true; AXTake; AXBegin].
+Theorem c06_order_unguarded_refuted :
+  exists c sch s, valid c /\ exec c sch = Some s /\ ordered (exported (hist s)) = false.
+Proof.
+  exists (mkcfg 4 4 2), w_order. destruct (exec (mkcfg 4 4 2) w_order) as [s|] eqn:E; [|vm_compute in E; discriminate].
+  exists s. split; [cbv; lia|]. split; [reflexivity|].
+  vm_compute in E. inversion E; subst. vm_compute. reflexivity.
+Qed.
+Print Assumptions c06_order_unguarded_refuted.
+
+(** F-C06-3: ForceFlush hands two records over as one payload (batch size 1); the
+    exporter fails on the first chunk, the second is never passed to it, ForceFlush returns nil *)
+Definition w_fail : list action :=
+  [AEmit 1 0; AStep 1; AEmit 1 0; AStep 1; AFlush 2; AStep 2; AXTake; AXBegin; AXEnd false;
+   AStep 2; AStep 2; AXTake; AStep 2; AStep 2].
+Theorem c06_flush_after_failure_refuted :
+  exists c sch, valid c /\ strict_fails c sch = true.
+Proof. exists (mkcfg 4 1 2), w_fail. split; [cbv; lia | vm_compute; reflexivity]. Qed.
+Print Assumptions c06_flush_after_failure_refuted.
+
+(** ** Non-vacuity: three emitters (one edits its record after Emit, one record is
+    overwritten in a queue of two), a ForceFlush and a Shutdown that both return nil;
+    the history satisfies even the literal statement. *)
+Definition good : list action :=
+  [AEmit 1 5; AStep 1; AMutate 1 9; AEmit 2 0; AStep 2; APoll WTrig true; AXTake; AXBegin; AXEnd true;
+   AEmit 3 1; AStep 3; AEmit 1 9; AStep 1; AEmit 3 1; AStep 3;
+   AFlush 4; AStep 4; AXTake; AXBegin; AXEnd true; AStep 4; AStep 4; AXTake; AStep 4; AStep 4;
+   AShutdown 5; APoll WKill true; AStep 5; AStep 5; AStep 5; AStep 5; AXTake; AStep 5; AStep 5].
+Example c06_nonvacuous :
+  valid (mkcfg 2 2 1) /\
+  match exec (mkcfg 2 2 1) good with
+  | Some s => spec_strict (mkcfg 2 2 1) (hist s) && (length (exported (hist s)) =? 4) &&
+              (length (dropped s) =? 1) && negb (overlap (hist s)) &&
+              shut_returned all_guards (hist s)
+  | None => false
+  end = true.
+Proof. split; [cbv; lia | vm_compute; reflexivity]. Qed.
